@@ -149,13 +149,26 @@ class Model:
             open(os.environ['VERIF_DEBUG_REQ'], 'a').write(line + '\n')
         return res
 
-    def run(self, spec, actions, orders=(), descs=None, pools=(True, True), hyps=0):
+    def run(self, spec, actions, orders=(), descs=None, pools=(True, True), hyps=0, obs=None):
         """hyps: 1 = also evaluate the hypotheses of the theorems over all plain programs (plain_prog, valid_orders) on this program
-        with these orders; 2 = also the depth-sortedness needed by C06 (exponential in the DAG depth: small programs only)."""
+        with these orders; 2 = also the depth-sortedness needed by C06 (exponential in the DAG depth: small programs only).
+        obs: the implementation's observation of the same actions.  run() reports "the first" error of a SET of failed tasks
+        (address order, not reproducible): the model takes that choice as an oracle (p_pick, Engine/Manager.v).  When the model
+        sees several failed tasks at that point and the implementation reported another one than the model's default (index 0),
+        the model is run again with the implementation's choice, so that everything after it is compared exactly."""
         it = Interner()
         fields, amb = prog_fields(spec, it, orders, descs, pools)
         acts = [action_sx(a, it) for a in actions if a[0] in ('s', 'q', 'c', 'g')]
-        res = self.ask(sx(['run'] + fields + [['sched'] + acts] + ([['hyps', str(hyps)]] if hyps else [])))
+        tail = [['sched'] + acts] + ([['hyps', str(hyps)]] if hyps else [])
+        res = self.ask(sx(['run'] + fields + tail))
+        if obs is not None and 'trace' in res:
+            alts = next((e[1] for e in res['trace'] if e[0] == 'rundone'), [])
+            if len(alts) > 1:
+                j = impl_pick(obs, alts)
+                if j is not None:
+                    if j != 0:
+                        res = self.ask(sx(['run'] + fields + [['pick', str(j)]] + tail))
+                    res['pick_matched'] = j
         res['ambiguous_orders'] = amb
         res['names'] = it.names
         return res
@@ -238,6 +251,22 @@ def norm_internal(x):
     return x
 
 
+def impl_pick(obs, alts):
+    """index in the model's list of failed-task errors of the one the implementation reported (None: cannot be told)"""
+    run = obs['runs'][0]
+    cands = []
+    io = norm_internal(run['outcome'])
+    if isinstance(io, list) and len(io) == 2 and io[0] in ('error', 'raised'):
+        cands.append(io[1])
+    for e in norm_internal(run['trace']):
+        if e[0] == 'emit' and e[2] == 'pipeline_complete' and isinstance(e[4], list) and len(e[4]) == 2 and e[4][0] == 'error':
+            cands.append(e[4][1])
+    for c in cands:
+        if c in alts:
+            return alts.index(c)
+    return None
+
+
 def compare(obs, res, strict_order=True):
     """K2: implementation observation vs model observation (single run). Returns a list of disagreements."""
     names = res['names']
@@ -253,7 +282,7 @@ def compare(obs, res, strict_order=True):
     # helper task at that moment is an admissible outcome (DESIGN 3.2) -> membership, not equality
     alts_raw = next((e[1] for e in res['trace'] if e[0] == 'rundone'), [])
     alts = [['error', a] if not (a[0] == 'x' and a[1] in ('BX', 'BaseException')) else ['raised', a] for a in alts_raw]
-    multi = len(alts) > 1 and io in alts and mo in alts
+    multi = len(alts) > 1 and io in alts and mo in alts and res.get('pick_matched') is None
     if io != mo and not multi:
         diffs.append('outcome: impl=%s model=%s' % (json.dumps(io)[:200], json.dumps(mo)[:200]))
     ideadlock = obs['verdict'] == 'deadlock'
